@@ -637,11 +637,25 @@ func vRunConnScenario(sc *vScenario) (out []vOutEvent, info map[string]interface
 			return true
 		}
 		s.projFn = func() []int32 {
-			tick := 0
+			tick, rtick := 0, 0
 			if c.writeTimer != nil {
 				tick = len(c.writeTimer.C)
 			}
-			return []int32{vLoad32(&c.keychain[flushing]), int32(len(c.writeTrigger)), int32(r.outLen()), int32(r.peerPending()), int32(tick)}
+			if c.readTimer != nil {
+				rtick = len(c.readTimer.C)
+			}
+			fdPend := -1
+			if vLoad32(&c.keychain[closing]) == 0 {
+				if n, err := vIoctlInt(c.fd, syscall.TIOCINQ); err == nil {
+					fdPend = n
+				}
+			}
+			opst := int32(1)
+			if c.operator != nil {
+				opst = atomic.LoadInt32(&c.operator.state)
+			}
+			return []int32{vLoad32(&c.keychain[flushing]), int32(len(c.writeTrigger)), int32(r.outLen()), int32(r.peerPending()), int32(tick),
+				int32(len(c.readTrigger)), int32(r.inLen()), int32(atomic.LoadInt64(&c.waitReadSize)), vLoad32(&c.keychain[closing]), opst, int32(rtick), int32(fdPend)}
 		}
 	}
 	s.AddTimerEnv("rtimer", c, false, 2)
